@@ -28,6 +28,12 @@
     callback-holding fields — reported finding).  An element documented by two blocks (type block +
     SECTION block, virtual method + invoker) shows the later block's value: the theorems are stated
     per application of a block.
+  * C03_accessor_inferred_getter_is_chosen speaks about one property's visit of
+    `_pair_property_accessors` (`pairOne`); the methods' set/get-property state before the visit is
+    arbitrary.  No further hypotheses.
+  * C03_source_shape pins, literally, the statements of `_apply_annotation_rename_to` and
+    `_pair_property_accessors` (diagnostics removed) and the guard of every identifier-level attribute
+    of the writer; when /repo changes one of them the model has to be re-read against it.
   * parameter/return annotations (C01) and the container/role decision (C04) are inputs, not modelled.
 -/
 import GIVerif.Lemmas.IdentAnn
@@ -651,6 +657,18 @@ theorem C03_rename_written_partial (nameOf : Str → Option Str) (env : NameEnv 
   rw [hw1, hw2]
   exact (C03_rename_symmetric nameOf env reqs hnd).1 s t fn gn hs ht
 
+/-! ### accessors: `_pair_property_accessors` -/
+
+/-- One property visited by `_pair_property_accessors`: a method that carried no get-property before
+    and carries one afterwards is the getter the property names, and what it carries is that property's
+    name.  Of several getter candidates (get_active, is_active, active) only the chosen one keeps the
+    inferred glib:get-property; explicit `(get-property)` annotations are not touched by this. -/
+theorem C03_accessor_inferred_getter_is_chosen (p : PropInfo) (pe : Option Str × Option Str)
+    (ms : List (Method × Option Str × Option Str)) (i : Nat) (m m' : Method) (sp sp' : Option Str) (g : Str)
+    (h0 : ms[i]? = some (m, sp, none)) (h1 : (pairOne p pe ms).2[i]? = some (m', sp', some g)) :
+    m' = m ∧ g = p.name ∧ (pairOne p pe ms).1.2 = some m.name :=
+  pairOne_inferred h0 h1
+
 /-! ### C03_vfunc_inherits -/
 
 /-- A virtual method without a block of its own (and without field documentation) whose invoker
@@ -783,6 +801,19 @@ example :
     let st := renameFold abcNames [("a".toList, "a".toList)]
     st.shadows "a".toList = some "a".toList ∧ st.shadowedBy "a".toList = some "a".toList
     ∧ wShadows st "a".toList = none ∧ wShadowedBy st "a".toList = some "a".toList := by
+  decide
+
+-- accessors: two getter candidates for a boolean property, in either order get_active wins and
+-- is_active is left without glib:get-property; an explicit (get-property) on is_active stays
+def exIs : Method := { symbol := "foo_bar_is_active".toList, name := "is_active".toList }
+def exGet : Method := { symbol := "foo_bar_get_active".toList, name := "get_active".toList }
+example : pairOne { name := "active".toList, isBool := true } (none, none) [(exIs, none, none), (exGet, none, none)]
+    = ((none, some "get_active".toList), [(exIs, none, none), (exGet, none, some "active".toList)]) := by decide
+example : pairOne { name := "active".toList, isBool := true } (none, none) [(exGet, none, none), (exIs, none, none)]
+    = ((none, some "get_active".toList), [(exGet, none, some "active".toList), (exIs, none, none)]) := by decide
+example : pairOne { name := "active".toList, isBool := true } (none, none)
+      [(exGet, none, none), (exIs, none, some "active".toList)]
+    = ((none, some "get_active".toList), [(exGet, none, some "active".toList), (exIs, none, some "active".toList)]) := by
   decide
 
 -- virtual methods
